@@ -236,7 +236,16 @@ impl G<'_> {
                 let o1 = self.r.coin(sh.obs_chance[1]);
                 let l0 = if o0 { format!("{}:{}", labels[0], i) } else { labels[0].to_string() };
                 let l1 = if o1 { format!("{}:{}", labels[1], i) } else { labels[1].to_string() };
-                let child = self.node(depth + 1, budgets[i], [&l0, &l1], false);
+                let mut child = self.node(depth + 1, budgets[i], [&l0, &l1], false);
+                // a lottery: behind an outcome of probability <= 1e-9 everything may pay 1/p times
+                // more, so that the branch still contributes order one to every utility
+                let p_rel = crate::model::normalised(&weights)[i];
+                if !int_w && rare && i == 0 && n > 1 && p_rel > 0.0 && p_rel < 1e-6 && self.r.coin(0.5) {
+                    let k = (1.0 / p_rel).log2().round().exp2(); // a power of two: exact scaling
+                    if k.is_finite() && (k * 4.0 * sh.pay_scale).is_finite() && k * 4.0 * sh.pay_scale < 1e250 {
+                        child = child.map_payoffs(&mut |x| x * k);
+                    }
+                }
                 outs.push((format!("o{i}"), weights[i], child));
             }
             MNode::C { info, outs }
